@@ -571,6 +571,74 @@ def drivers():
     return exe
 
 
+CONST_ORDER = ["MESSAGE_HEADER_LEN", "MESSAGE_RESPONSE", "MESSAGE_T_SRV", "MESSAGE_C_IN", "MAX_DOMAIN_LEN",
+               "XMPP_DOMAIN_NOT_FOUND", "XMPP_DOMAIN_FOUND", "hdr_octet2_off", "hdr_octet3_off", "hdr_qdcount_off",
+               "hdr_ancount_off", "qr_shift", "qr_mask", "rcode_mask", "q_tail", "rr_type_off", "rr_class_off",
+               "rr_rdlength_off", "rr_fixed_len", "srv_prio_off", "srv_weight_off", "srv_port_off", "srv_target_off",
+               "label_mask", "label_tag", "pointer_tag", "pointer_mask", "pointer_shift"]
+
+
+def gen_text():
+    import importlib.util
+    spec = importlib.util.spec_from_file_location("gens_resolver_c15", os.path.join(vlib.ROOT, "tools", "gens", "gen_resolver.py"))
+    mod = importlib.util.module_from_spec(spec)
+    spec.loader.exec_module(mod)
+    return mod.generate()
+
+
+def expected_fingerprint(text):
+    """what the model driver must answer to "?" when it was extracted with this Gen_resolver.v"""
+    consts = dict(re.findall(r"Definition (\w+) : Z := (\d+)\.", text))
+    ovf = re.search(r"ovf_check_offsets : list Z := \[([^\]]*)\]", text).group(1).replace(" ", "").replace(";", ",")
+
+    def fn(name, args):
+        body = re.search(r"Definition %s \([^)]*\) : bool :=\s*(.*?)\.\n" % name, text, re.S).group(1)
+        py = body.replace(">=?", ">=").replace("<=?", "<=").replace(">?", ">").replace("<?", "<").replace("=?", "==")
+        py = py.replace("negb", "not").replace("||", " or ").replace("&&", " and ")
+        return eval("lambda %s: (%s)" % (args, py))
+    bit = lambda b: "1" if b else "0"
+    ovfcmp = fn("ovf_check", "ptr, len")
+    ptr = fn("pointer_guard", "pointer, buf_offset")
+    swap = fn("srv_swap", "cp, cw, np, nw")
+    return "consts %s ovf=%s ovfcmp=%s ptr=%s swap=%s" % (
+        ",".join(consts[k] for k in CONST_ORDER), ovf,
+        "".join(bit(ovfcmp(a, 5)) for a in (4, 5, 6)), "".join(bit(ptr(a, 5)) for a in (4, 5, 6)),
+        "".join(bit(swap(cp, cw, np_, nw)) for cp in (1, 2) for cw in (1, 2) for np_ in (1, 2) for nw in (1, 2)))
+
+
+def model_for_this_tree(chk):
+    """The extracted model must have been built with the Gen_resolver.v of the tree under test.  coq/Gen is
+    shared between trees (VERIF_REPO) and rewritten by every translator run, so the snapshot taken by
+    vlib.coq_property can belong to another tree when something rewrote Gen_resolver.v between the proof
+    build and the extraction.  Re-extract under the Coq lock if needed and verify with the fingerprint the
+    driver prints for "?" (local work-around; vlib is not edited)."""
+    try:
+        want = gen_text()
+    except Exception as e:  # translator failure is already reported by chk.prove()
+        return vlib.build_ocaml_model("C15")
+    exp = expected_fingerprint(want)
+    last = None
+    for attempt in range(3):
+        try:
+            mexe = vlib.build_ocaml_model("C15")
+            last = vlib.run_lines(mexe, ["?"])[0]
+            if last == exp:
+                return mexe
+        except vlib.BuildError as e:
+            last = str(e)[:200]
+        with vlib.Lock("coq"):
+            vlib.translate.run(["resolver"])
+            vlib.coq_make(["Extract/Extract_C15.vo"], keep_going=True)
+            snap = os.path.join(vlib.BUILD, "extracted", "C15", vlib.repo_hash())
+            os.makedirs(snap, exist_ok=True)
+            for ext in ("ml", "mli"):
+                f = os.path.join(vlib.COQ, "c15_model.%s" % ext)
+                if os.path.exists(f):
+                    import shutil
+                    shutil.copy(f, snap)
+    raise vlib.BuildError("extracted model does not belong to the tree under test: wanted %r, model says %r" % (exp, last))
+
+
 def run(chk):
     chk.rule = ("structured responses from a compressing DNS message writer (1-12 answers of types SRV/A/AAAA/CNAME/TXT/OPT, "
                 "pointers to earlier names, into the middle of names, chains, to root octets; labels 1..63; targets up to "
@@ -595,7 +663,7 @@ def run(chk):
     impl = vlib.run_parallel(exe, lines, per_case_timeout=30)
     model = None
     try:
-        mexe = vlib.build_ocaml_model("C15")
+        mexe = model_for_this_tree(chk)
         model = vlib.run_parallel(mexe, lines, per_case_timeout=120, timeout=600)
     except vlib.BuildError as e:
         chk.broken.append({"kind": "extract", "name": "Extract_C15", "detail": str(e)[:500]})
@@ -643,7 +711,7 @@ def replay(path):
         return 1
     impl = vlib.run_lines(drivers(), [case])[0]
     try:
-        model = vlib.run_lines(vlib.build_ocaml_model("C15"), [case])[0]
+        model = vlib.run_lines(model_for_this_tree(None), [case])[0]
     except vlib.BuildError:
         model = "(model unavailable)"
     bad = oracle(case, impl)
